@@ -6,6 +6,7 @@
  */
 
 #include <dispenso/thread_pool.h>
+#include <dispenso/detail/verif_hooks.h>
 
 namespace dispenso {
 namespace detail {
@@ -26,25 +27,35 @@ struct TimedTaskImpl {
   TimedTaskImpl(size_t times, double next, double per, F&& f, Schedulable& sched, bool stdy)
       : timesToRun(times), nextAbsTime(next), period(per), steady(stdy) {
     func = [&sched, f = std::move(f), this](std::shared_ptr<TimedTaskImpl> me) {
+      DISPENSO_VERIF_POINT("tt.func.flags.load", this);
       if (flags.load(std::memory_order_acquire) & kFFlagsCancelled) {
         return;
       }
 
+      DISPENSO_VERIF_POINT("tt.func.inprogress.inc", this);
       inProgress.fetch_add(1, std::memory_order_acq_rel);
 
       auto wrap = [&f, this, me = std::move(me)]() mutable {
+        DISPENSO_VERIF_POINT("tt.wrap.flags.load", this);
         if (!(flags.load(std::memory_order_acquire) & kFFlagsCancelled)) {
+          DISPENSO_VERIF_POINT("tt.wrap.call", this);
           if (!f()) {
+            DISPENSO_VERIF_POINT("tt.wrap.ttr.store", this);
             timesToRun.store(0, std::memory_order_release);
+            DISPENSO_VERIF_POINT("tt.wrap.flags.or", this);
             flags.fetch_or(kFFlagsCancelled, std::memory_order_acq_rel);
+            DISPENSO_VERIF_POINT("tt.wrap.func.clear", this);
             func = {};
           }
+          DISPENSO_VERIF_POINT("tt.wrap.count.inc", this);
           count.fetch_add(1, std::memory_order_acq_rel);
         }
 
+        DISPENSO_VERIF_POINT("tt.wrap.inprogress.dec", this);
         inProgress.fetch_sub(1, std::memory_order_release);
         me.reset();
       };
+      DISPENSO_VERIF_POINT("tt.func.schedule", this);
       sched.schedule(wrap, ForceQueuingTag());
     };
   }
